@@ -13,6 +13,9 @@ EXTENDS Integers, Sequences, FiniteSets, SequencesExt, Functions
 SeqRange(s) == {s[k] : k \in DOMAIN s}
 
 IsPermOf(s, ids) == Len(s) = Cardinality(ids) /\ SeqRange(s) = ids
+Count(s, v) == Cardinality({k \in DOMAIN s : s[k] = v})
+SameBag(a, b) == Len(a) = Len(b) /\ \A v \in SeqRange(a) \cup SeqRange(b) : Count(a, v) = Count(b, v)
+AtSlots(s, S) == LET idx == SetToSortSeq(S \cap DOMAIN s, LAMBDA x, y : x < y) IN [k \in 1..Len(idx) |-> s[idx[k]]]
 
 (* lax.dynamic_slice clamps the start index so that the window stays inside the array *)
 Clamp(s, n, b) == IF s + b > n THEN n - b ELSE IF s < 0 THEN 0 ELSE s
@@ -28,12 +31,10 @@ ActiveIds(order, act) == {order[k] : k \in act \cap DOMAIN order}
 (* jax.random.choice(replace=False, p): the active values come first in some order; the
    zero-probability values keep their relative order at the end. *)
 ValidReshuffle(order, act, q) ==
-    LET ai == ActiveIds(order, act)
-        na == Cardinality(ai)
-        inact == SelectSeq(order, LAMBDA v : v \notin ai)
-    IN  /\ Len(q) = Len(order)
-        /\ {q[k] : k \in 1..na} = ai
-        /\ SubSeq(q, na + 1, Len(q)) = inact
+    LET na == Cardinality(act \cap DOMAIN order) IN
+        /\ Len(q) = Len(order)
+        /\ SameBag(SubSeq(q, 1, na), AtSlots(order, act))
+        /\ SubSeq(q, na + 1, Len(q)) = AtSlots(order, (DOMAIN order) \ act)
 
 (* ---- clause operators of the action Draw: (order, cur) -> (order2, cur2, batch) ---- *)
 CursorOK(rule, cur, b, neff, cur2) ==
@@ -60,17 +61,20 @@ NextServed(cur2, batch, served) ==
 
 (* The name of the first failing clause of a draw, "ok" if none.  `ids` is the set of point
    identities the store was built with. *)
-DrawVerdict(rule, first, ids, order, act, cur, b, neff, served, order2, cur2, batch) ==
+DrawVerdictG(strict, rule, first, order, act, cur, b, neff, served, order2, cur2, batch) ==
     LET reset == first \/ ResetCond(rule, cur, b, neff) IN
-    IF ~IsPermOf(order2, ids) THEN "StoreNotPermutation"
+    IF ~SameBag(order2, order) THEN "StoreNotPermutation"
     ELSE IF reset /\ cur2 # 0 THEN "ExpectedReshuffle"
     ELSE IF ~reset /\ cur2 # cur + b THEN "ExpectedAdvance"
     ELSE IF ~reset /\ order2 # order THEN "StoreChangedWithoutReshuffle"
     ELSE IF reset /\ ~ValidReshuffle(order, act, order2) THEN "InvalidReshuffle"
     ELSE IF Len(batch) # b THEN "BatchSize"
     ELSE IF ~BatchOK(order2, cur2, b, batch) THEN "BatchNotSliceOfStore"
-    ELSE IF ServedTwice(cur2, b, neff, batch, served) THEN "PointServedTwice"
-    ELSE IF EarlyReshuffle(first, cur2, order, act, served) THEN "ReshuffleBeforeAllServed"
-    ELSE IF LateReshuffle(first, cur2, order, act, served) THEN "LateReshuffle"
+    ELSE IF strict /\ ServedTwice(cur2, b, neff, batch, served) THEN "PointServedTwice"
+    ELSE IF strict /\ EarlyReshuffle(first, cur2, order, act, served) THEN "ReshuffleBeforeAllServed"
+    ELSE IF strict /\ LateReshuffle(first, cur2, order, act, served) THEN "LateReshuffle"
     ELSE "ok"
+DrawVerdict(rule, first, ids, order, act, cur, b, neff, served, order2, cur2, batch) ==
+    IF ~IsPermOf(order2, ids) THEN "StoreNotPermutation"
+    ELSE DrawVerdictG(TRUE, rule, first, order, act, cur, b, neff, served, order2, cur2, batch)
 =============================================================================
